@@ -41,6 +41,8 @@ def main(argv=None):
     ap.add_argument("--replay")
     ap.add_argument("--src", help="alternative source root (a scratch copy's src/ directory); default /repo/src")
     a = ap.parse_args(argv)
+    if a.src:
+        os.environ["VERIF_NO_EVIDENCE"] = "1"  # scratch trees never overwrite the evidence of /repo
     try:
         rc = run_property(a.prop.upper(), a.tier, a.replay, a.src)
     except AnalysisError as e:
